@@ -435,7 +435,7 @@ def _impl_verify(scn, root, repeat):
                     md, {k: json.loads(json.dumps(v)) for k, v in scn.keys.items()},
                     link_dir_path=os.path.join(root, "links"),
                     substitution_parameters=params, persist_inspection_links=bool(scn.meta.get("persist_links", False)),
-                    inspect_timeout=scn.meta.get("inspect_timeout", 10))
+                    inspect_timeout=scn.meta.get("inspect_timeout", 60))
             out["result"] = {"ok": canon(attr.asdict(summary))}
         except BaseException as e:  # pylint: disable=broad-except
             if isinstance(e, (KeyboardInterrupt, SystemExit)):
